@@ -117,6 +117,43 @@ func driverBlockedOnHooks(gs []G, stale map[int]bool) (found bool, blocked bool)
 	return false, false
 }
 
+// driverSite describes where the driver goroutine (not one of `stale`) stands:
+// parked tells that it is neither running nor runnable, inRepo that no lab code
+// is on its stack above TryTransition / TeardownEnvironment, and site is the
+// innermost function of the repository on its stack ("callable.Calls.AwaitAll").
+func driverSite(gs []G, stale map[int]bool) (found, parked, inRepo bool, site string) {
+	for _, g := range gs {
+		if stale[g.ID] {
+			continue
+		}
+		i := strings.Index(g.Text, fnTryTransition)
+		if i < 0 {
+			i = strings.Index(g.Text, fnTeardown)
+		}
+		if i < 0 {
+			continue
+		}
+		found = true
+		parked = g.State != "running" && g.State != "runnable" && g.State != "syscall"
+		inRepo = !strings.Contains(g.Text[:i], fnEnvlab)
+		for _, ln := range strings.Split(g.Text, "\n") {
+			if strings.HasPrefix(ln, "github.com/AliceO2Group/Control/") {
+				f := ln
+				if j := strings.LastIndex(f, "("); j > 0 {
+					f = f[:j]
+				}
+				if j := strings.LastIndex(f, "/"); j >= 0 {
+					f = f[j+1:]
+				}
+				site = f
+				break
+			}
+		}
+		return
+	}
+	return
+}
+
 // envManagerLoopIdle: the environment manager's event loop goroutine is parked
 // waiting for its next event.
 func envManagerLoopIdle(gs []G) bool {
